@@ -5,7 +5,10 @@ The graph is DATA regenerated from the Go sources on every run (`OW/Gen/IoLockGr
 /verif/harness/cmd/owlockgraph): one `Fn` per function/method; `lock` = the package lock the function acquires as its
 first statement with the release deferred as its second (so it is held during the whole body, callees included);
 `irregular` = it touches the lock in any other way; `lib` = its calls into the HDF5 library with "can modify a file";
-`calls` = the package functions it calls (positions in the graph).
+`calls` = the package functions it calls (positions in the graph). A function literal handed directly to a function of
+the package whose parameter is call-only (`lock…(); defer unlock…(); body()` helpers, any name) is a node of its own
+with the call edge from that callee — it runs under the callee's lock; a literal that may run at any other time
+(stored, handed on, started with `go`) is a node marked `exported` (an entry point); see owlockgraph's header.
 
 `lockCheck G` computes, for every function, a lower bound `ctx` of the lock strength its callers guarantee on entry
 (0 none, 1 shared, 2 exclusive; exported functions: 0) by relaxation, and then VERIFIES that the bound is inductive and
